@@ -1,5 +1,14 @@
 /-
   Thm/C15.lean — property theorems for C15 "text forms round-trip and every parser is total".
+  Property theorems only (plus specification vocabulary and non-vacuity `example`s); helper lemmas live in
+  Lemmas/{HexId, TraceparentText, Calendar, TimestampText, TimestampOrder, PathValid, KindText}.lean.
+
+  OBLIGATIONS (audited by `check` with `#print axioms`, listed in props/C15.json):
+    hex_roundtrip, trace_id_roundtrip, span_id_roundtrip, hex_strict, hex_value, hex_entry_points_agree,
+    flags_roundtrip, flags_strict, traceparent_roundtrip, traceparent_strict,
+    calendar_roundtrip, ts_roundtrip, ts_roundtrip_exact, ts_parse_total, ts_strict, ts_accepts_calendar_valid,
+    fmt_order, fmt_order_full, path_spec, is_child_of_spec, kind_roundtrip, kind_strict,
+    level_roundtrip, level_lenient_spec
 
   Totality: every model parser is a total Lean function into `Option`/`Outcome`; wherever the Rust code can panic
   the model returns `Outcome.panic` explicitly, and the theorems below that state `= .ok _` / `≠ .panic` are the
@@ -11,7 +20,7 @@ import EmitModel.Lemmas.TraceparentText
 import EmitModel.Lemmas.TimestampText
 import EmitModel.Lemmas.TimestampOrder
 import EmitModel.Lemmas.PathValid
-import EmitModel.Model.KindText
+import EmitModel.Lemmas.KindText
 import EmitModel.Thm.C17
 
 namespace EmitModel.C15
@@ -29,10 +38,7 @@ open EmitModel.HexId
 theorem hex_roundtrip (n v : Nat) (h0 : v ≠ 0) (hlt : v < 256 ^ n) :
     fromStr n (toHex n v) = some v ∧ (toHex n v).length = 2 * n ∧
     ∀ c ∈ toHex n v, isHexDigit c = true ∧ asciiLower c = c := by
-  refine ⟨?_, toHex_length n v, encodeBytes_shape _⟩
-  unfold fromStr tryFromHexSlice
-  simp only [toHex_length, ne_eq, not_true_eq_false, ↓reduceIte]
-  simp only [toHex, decodePairs_encodeBytes, fromBeBytes_toBeBytes, Nat.mod_eq_of_lt hlt, h0, ↓reduceIte]
+  exact ⟨tryFromHexSlice_toHex n v h0 hlt, toHex_length n v, encodeBytes_shape _⟩
 
 theorem trace_id_roundtrip (v : Nat) (h0 : v ≠ 0) (hlt : v < 2 ^ 128) : fromStr 16 (toHex 16 v) = some v :=
   (hex_roundtrip 16 v h0 (by simpa using hlt)).1
@@ -113,19 +119,6 @@ theorem flags_strict (bs : List UInt8) :
 def TraceparentWF (tp : Traceparent) : Prop :=
   (∀ t, tp.traceId = some t → t ≠ 0 ∧ t < 2 ^ 128) ∧ (∀ s, tp.spanId = some s → s ≠ 0 ∧ s < 2 ^ 64)
 
-theorem zeros_hex (n : Nat) : tryFromHexSlice n (zeros (2 * n)) = none := by
-  cases h : tryFromHexSlice n (zeros (2 * n)) with
-  | none => rfl
-  | some v =>
-    have ⟨_, d, e, nz⟩ := (tryFromHexSlice_eq_some n _ v).1 h
-    exact absurd (e ▸ (hexValue_zero _ d).2 (by simp [zeros])) nz
-
-theorem toHex_ne_zeros (n v : Nat) (h0 : v ≠ 0) (hlt : v < 256 ^ n) : toHex n v ≠ zeros (2 * n) := by
-  intro h
-  have := (hex_roundtrip n v h0 hlt).1
-  rw [fromStr, h, zeros_hex] at this
-  cases this
-
 /-- Formatting then parsing returns the header, for every combination of present/absent ids and all flags;
     the text is 55 bytes. -/
 theorem traceparent_roundtrip (tp : Traceparent) (h : TraceparentWF tp) :
@@ -143,12 +136,12 @@ theorem traceparent_roundtrip (tp : Traceparent) (h : TraceparentWF tp) :
     intro t h0 hlt
     have hlt' : t < 256 ^ 16 := by simpa using hlt
     simp [tidOf, toHex_ne_zeros 16 t h0 hlt']
-    exact (hex_roundtrip 16 t h0 hlt').1
+    exact (tryFromHexSlice_toHex 16 t h0 hlt')
   have sidSome : ∀ s, s ≠ 0 → s < 2 ^ 64 → sidOf (toHex 8 s) = some (some s) := by
     intro s h0 hlt
     have hlt' : s < 256 ^ 8 := by simpa using hlt
     simp [sidOf, toHex_ne_zeros 8 s h0 hlt']
-    exact (hex_roundtrip 8 s h0 hlt').1
+    exact (tryFromHexSlice_toHex 8 s h0 hlt')
   cases tid with
   | none =>
     cases sid with
@@ -433,15 +426,6 @@ open EmitModel.KindText
 theorem kind_roundtrip (k : Kind) :
     parseKind k.display = some k ∧ KindVal.cast (.text k.display) = some k ∧ KindVal.cast (.typed k) = some k := by
   cases k <;> decide
-
-theorem eqIgnoreAsciiCase_iff (a b : List Char) :
-    eqIgnoreAsciiCase a b = true ↔ a.map asciiLower = b.map asciiLower := by
-  induction a generalizing b with
-  | nil => cases b <;> simp [eqIgnoreAsciiCase]
-  | cons x xs ih =>
-    cases b with
-    | nil => simp [eqIgnoreAsciiCase]
-    | cons y ys => simp [eqIgnoreAsciiCase, ih]
 
 /-- The kind parser, spelled out: a text is a kind iff, after trimming Unicode whitespace, it is the kind's
     name up to ASCII letter case. Anything else is an error; the parser is total. -/
